@@ -23,6 +23,12 @@ pub fn vx_trim_end_nl(s: &str) -> (r: &str) { unimplemented!() }
 #[verifier::external_body]
 pub fn vx_str_bytes(s: &str) -> (r: &[u8]) { unimplemented!() }
 
+#[verifier::external_body]
+pub fn vx_unwrap_or(o: Option<RawFd>, d: RawFd) -> (r: RawFd) ensures r == (match o { Some(x) => x, None => d }) { o.unwrap_or(d) }
+// the descriptor N>&M copies: what 2 (resp. 1) refers to now -- the one set by an earlier redirection of this command, else the shell's own
+pub open spec fn bfd_src(target: Seq<char>, fd_out: Option<RawFd>, fd_err: Option<RawFd>) -> int {
+    if target == "&2"@ { match fd_err { Some(y) => y as int, None => 2 } } else { match fd_out { Some(x) => x as int, None => 1 } }
+}
 pub open spec fn opt_is(o: Option<RawFd>, fd: int) -> bool { match o { Some(x) => x as int == fd, None => false } }
 // the table after the call: what was open before, plus exactly the descriptors handed back
 pub open spec fn only_returned_opened(f0: Map<int, Obj>, f1: Map<int, Obj>, a: Option<RawFd>, b: Option<RawFd>) -> bool {
@@ -56,20 +62,26 @@ RW = [
 GA = {'dup': 'Tracked(k)', 'close': 'Tracked(k)', 'create_raw_fd_from_file': 'Tracked(k)', '_get_std_fds': 'Tracked(k)', 'vx_file_from_raw_fd': 'Tracked(k)',
       '_get_dupped_stdout_fd': 'Tracked(k)', '_get_dupped_stderr_fd': 'Tracked(k)'}
 
-get_std_fds = Fn(U, '_get_std_fds', ret='r', pre_rewrites=RW, add_params='Tracked(k): Tracked<&mut Kernel>', ghost_args=GA,
-    let_types={'fd_out': 'Option<RawFd>', 'fd_err': 'Option<RawFd>', '_fd_candidate': 'Option<RawFd>'},
+get_std_fds = Fn(U, '_get_std_fds', ret='r', pre_rewrites=RW + [
+        Rw('fd_err.unwrap_or(2)', 'vx_unwrap_or(fd_err, 2)', required=False, rule='R12', why='Option::unwrap_or through a shim with its std contract'),
+        Rw('fd_out.unwrap_or(1)', 'vx_unwrap_or(fd_out, 1)', required=False, rule='R12'),
+    ], add_params='Tracked(k): Tracked<&mut Kernel>', ghost_args=GA,
+    let_types={'_fd_candidate': 'Option<RawFd>'},
+    loop_kinds={0: 'iter'},
     requires=[('C05.pre.bfd.len', '!old(k).fds.contains_key(-1) && redirects@.len() < 0x7fff_ffff')],
     ensures=[
         ('C08.bfd.std_fds_opens_only_what_it_returns', 'only_returned_opened(old(k).fds, final(k).fds, r.0, r.1)'),
         ('C08.bfd.std_fds_frame', 'final(k).child == old(k).child && final(k).forks == old(k).forks && !final(k).fds.contains_key(-1)'),
     ],
-    decreases='redirects@.len()',
     hints={'after-text:fd_out = _fd_candidate;':
-           'LABEL:C08+C04.bfd.mid.only_returned_after_stdout_side: assert(only_returned_opened(old(k).fds, k.fds, fd_out, fd_err)); '
-           'assert(match fd_out { Some(x) => x >= 0 ==> k.fds.contains_key(x as int), None => true }); '
-           'assert(match fd_err { Some(y) => y >= 0 ==> k.fds.contains_key(y as int), None => true });'},
+           'LABEL:C08+C04.bfd.mid.only_returned_after_stdout_side: assert(only_returned_opened(old(k).fds, k.fds, fd_out, fd_err)); ',
+           # C04 for builtins: N>&M takes a copy of what M refers to AT THAT POINT (redirections are applied left to right)
+           'after-call:dup':
+           'LABEL:C04.bfd.dup_copies_the_descriptor_as_it_stands_at_that_point: '
+           'assert(match _fd_candidate { Some(c) => c >= 0 ==> k.fds.contains_key(c as int) && k.fds.contains_key(bfd_src(item.2@, fd_out, fd_err)) '
+           '&& k.fds[c as int] == k.fds[bfd_src(item.2@, fd_out, fd_err)], None => true });'},
     loops={0: Loop(invariant=[
-        ('C08.inv.bfd.only_returned', '!k.fds.contains_key(-1) && !old(k).fds.contains_key(-1) && only_returned_opened(old(k).fds, k.fds, fd_out, fd_err) && k.child == old(k).child && k.forks == old(k).forks && __HI == redirects@.len() && redirects@.len() < 0x7fff_ffff '
+        ('C08.inv.bfd.only_returned', '!k.fds.contains_key(-1) && !old(k).fds.contains_key(-1) && only_returned_opened(old(k).fds, k.fds, fd_out, fd_err) && k.child == old(k).child && k.forks == old(k).forks '
          '&& (match fd_out { Some(x) => x >= 0 ==> k.fds.contains_key(x as int), None => true }) && (match fd_err { Some(y) => y >= 0 ==> k.fds.contains_key(y as int), None => true })'),
     ])},
 )
